@@ -184,4 +184,101 @@ var propStall = stats.Prop(R, "long-stall", genStall, check)
 
 func TestLongStall(t *testing.T) { rapid.Check(t, propStall) }
 
+// Midnight: local midnight (when the daily logs change their file names) falls in the middle of the run.
+// The leg runs alone in its process because it moves time.Local.
+type slowReader struct {
+	data  []byte
+	pos   int
+	chunk int
+	pause time.Duration
+}
+
+func (r *slowReader) Read(p []byte) (int, error) {
+	if r.pos >= len(r.data) {
+		return 0, io.EOF
+	}
+	time.Sleep(r.pause)
+	n := r.chunk
+	if n > len(p) {
+		n = len(p)
+	}
+	if n > len(r.data)-r.pos {
+		n = len(r.data) - r.pos
+	}
+	copy(p, r.data[r.pos:r.pos+n])
+	r.pos += n
+	return n, nil
+}
+
+type MidnightCase struct {
+	Stream     gen.Stream `json:"stream"`
+	MidnightIn int        `json:"local_midnight_in_seconds"`
+	Display    bool       `json:"display_messages"`
+}
+
+func checkMidnight(c MidnightCase, o *stats.Obs) error {
+	input := c.Stream.Bytes()
+	want, frames, others := appsup.ValidFrames(input)
+	now := time.Now().UTC()
+	sod := now.Hour()*3600 + now.Minute()*60 + now.Second()
+	off := (86400 - c.MidnightIn - sod) % 86400
+	if off > 43200 {
+		off -= 86400
+	}
+	oldLocal := time.Local
+	time.Local = time.FixedZone("FIX", off)
+	defer func() { time.Local = oldLocal }()
+	caseNo++
+	dir := filepath.Join(os.Getenv("VERIF_SCRATCH"), fmt.Sprintf("midnight-%d", caseNo))
+	defer os.RemoveAll(dir)
+	cfg := &jsonconfig.Config{DisplayMessages: c.Display, RecordMessages: true, MessageLogDirectory: dir}
+	w := &appsup.LatencyWriter{}
+	chunk := len(input)/8 + 1
+	done := make(chan struct{})
+	go func() {
+		rtcmfilter.HandleMessages(drive.StartTime, &slowReader{data: input, chunk: chunk, pause: 800 * time.Millisecond}, w, cfg)
+		close(done)
+	}()
+	select {
+	case <-done:
+	case <-time.After(60 * time.Second):
+		o.Key = "no-return"
+		return fmt.Errorf("rtcmfilter HandleMessages did not return within 60 s")
+	}
+	if got := w.Snapshot(); !bytes.Equal(got, want) {
+		o.Key = "output"
+		return fmt.Errorf("output across local midnight is not the concatenation of the %d valid frames: %s", frames, appsup.Diff(got, want))
+	}
+	var rec []byte
+	appsup.WaitFor(3*time.Second, func() bool {
+		rec = appsup.ReadLogs(dir, "rtcmfilter.", ".rtcm")
+		return len(rec) >= len(want)
+	})
+	if !bytes.Equal(rec, want) {
+		names, _ := filepath.Glob(filepath.Join(dir, "rtcmfilter.*.rtcm"))
+		o.Key = "record-file"
+		return fmt.Errorf("record written across local midnight (%d daily files) does not hold the same bytes as the output: %s", len(names), appsup.Diff(rec, want))
+	}
+	names, _ := filepath.Glob(filepath.Join(dir, "rtcmfilter.*.rtcm"))
+	o.NonTrivial = frames >= 1
+	o.Classes = append(o.Classes, fmt.Sprintf("crosses-local-midnight/%d-record-files", len(names)))
+	_ = others
+	return nil
+}
+
+func genMidnight(t *rapid.T) MidnightCase {
+	c := MidnightCase{MidnightIn: rapid.IntRange(3, 4).Draw(t, "midnightIn"), Display: rapid.Bool().Draw(t, "display")}
+	for i := 0; i < 12; i++ {
+		c.Stream.Segs = append(c.Stream.Segs, gen.Segment{Kind: "valid", Data: gen.ValidFrame(t, 60)})
+		if rapid.Bool().Draw(t, "junk") {
+			c.Stream.Segs = append(c.Stream.Segs, gen.Segment{Kind: "junk", Data: gen.Junk(t, false, 20)})
+		}
+	}
+	return c
+}
+
+var propMidnight = stats.Prop(R, "midnight", genMidnight, checkMidnight)
+
+func TestMidnight(t *testing.T) { rapid.Check(t, propMidnight) }
+
 func TestReplay(t *testing.T) { R.Replay(t) }
